@@ -364,6 +364,11 @@ def run(ctx):
             cols = conll_last_columns(t)
         except KeyError:
             cols = None
+        except Exception as e:      # noqa
+            cols = None
+            if line is not None:
+                ctx.fail('conll_raises', f'conll_of raises {type(e).__name__} on a tree that auto_of prints as {line!r}: there are no last-column fragments to compare',
+                         {'auto': line, 'error': type(e).__name__})
         ps.append(('conll', f'ChkConll t_ {gopt(cols, lambda x: glist(x, lit))}'))
         if line is None:
             ps.append(('print', 'ChkPrint t_ None'))
